@@ -149,13 +149,26 @@ proof fn lemma_low_bits_mask_is_pow2_minus_1(n: nat)
     }
 }
 
+// x >> l written as x / (1 << l) (bridge for behaviour-preserving rewrites of get_stride)
+proof fn lemma_shr_div64(key: u64, l: u64)
+  requires l < 64
+  ensures (1u64 << l) > 0, key >> l == key / (1u64 << l)
+{
+    lemma2_to64();
+    lemma_pow2_strictly_increases(l as nat, 64);
+    lemma_pow2_pos(l as nat);
+    vstd::bits::lemma_u64_shl_is_mul(1, l);
+    vstd::bits::lemma_u64_shr_is_div(key, l);
+}
 spec fn stride_spec(key: u64, lg_size: u8) -> int { (2 * ((key >> (lg_size as u64)) & 127) + 1) as int }
 
 fn get_stride ( key : u64 , lg_size : u8 ) -> ( r : usize ) requires lg_size < 64 ensures r == stride_spec ( key , lg_size ) , r % 2 == 1 , 1 <= r <= 255 {
 proof {
 let l = lg_size as u64 ;
-assert ( l < 64 ==> ( ( key >> l ) & 127 ) <= 127 ) by ( bit_vector ) ;
+assert ( l < 64 ==> ( ( key >> l ) & 127 ) <= 127 && ( key >> l ) & 127 == 127 & ( key >> l ) ) by ( bit_vector ) ;
 assert ( ( key >> ( lg_size as u64 ) ) == ( key >> lg_size ) ) ;
+lemma_shr_div64 ( key , l ) ;
+assert ( ( 1u64 << ( lg_size as u64 ) ) == ( 1u64 << lg_size ) ) ;
 }
 ( 2 * ( ( key >> ( lg_size ) ) & STRIDE_MASK ) + 1 ) as usize }
 
@@ -584,13 +597,10 @@ proof {
 lemma_occ_take_step ( es , ( vx_i1 + 1 ) as int - 1 ) ;
 }
 if entry != 0 {
-let new_index = find_in_entries ( & new_entries , entry , new_lg_size ) ;
 proof {
 lemma_occ_take_le ( es , ( vx_i1 + 1 ) as int - 1 ) ;
-if new_index is None {
-lemma_occ_full ( new_entries @ ) ;
 }
-}
+let new_index = find_in_entries ( & new_entries , entry , new_lg_size ) ;
 if let Some ( idx ) = new_index {
 let ghost ne0 = new_entries @ ;
 let ghost nlen = ne0 . len ( ) as int ;
@@ -644,6 +654,9 @@ assert ( holds ( ne1 , c ) ) ;
 }
 }
 else {
+proof {
+lemma_occ_full ( new_entries @ ) ;
+}
 unreachable! ( ) ;
 }
 }
@@ -748,32 +761,32 @@ let entry = & lesser [ vx_i1 ] ;
 if let Some ( idx ) = find_in_entries ( & new_entries , * entry , self . lg_cur_size ) {
 let ghost ne0 = new_entries @ ;
 let ghost nlen = ne0 . len ( ) as int ;
-let ghost e = * entry ;
-let ghost jw = choose | j : int | 0 <= j < nlen && idx == probe_at ( home ( e , nlen ) , stride_spec ( e , self . lg_cur_size ) , j , nlen ) && path_clear ( ne0 , e , home ( e , nlen ) , stride_spec ( e , self . lg_cur_size ) , j ) ;
+let ghost g_e = * entry ;
+let ghost jw = choose | j : int | 0 <= j < nlen && idx == probe_at ( home ( g_e , nlen ) , stride_spec ( g_e , self . lg_cur_size ) , j , nlen ) && path_clear ( ne0 , g_e , home ( g_e , nlen ) , stride_spec ( g_e , self . lg_cur_size ) , j ) ;
 proof {
-if holds ( ne0 , e ) {
-assert ( vals ( ne0 ) . contains ( e ) ) ;
-let t = choose | t : int | 0 <= t < ( vx_i1 + 1 ) - 1 && lz [ t ] == e ;
+if holds ( ne0 , g_e ) {
+assert ( vals ( ne0 ) . contains ( g_e ) ) ;
+let t = choose | t : int | 0 <= t < ( vx_i1 + 1 ) - 1 && lz [ t ] == g_e ;
 assert ( false ) ;
 }
 assert ( ne0 [ idx as int ] == 0 ) by {
-if ne0 [ idx as int ] == e {
-assert ( holds ( ne0 , e ) ) ;
+if ne0 [ idx as int ] == g_e {
+assert ( holds ( ne0 , g_e ) ) ;
 }
 }
-lemma_insert_ok ( ne0 , self . lg_cur_size , e , idx as int , jw ) ;
+lemma_insert_ok ( ne0 , self . lg_cur_size , g_e , idx as int , jw ) ;
 }
 new_entries [ idx ] = * entry ;
 num_inserted += 1 ;
 proof {
 let ne1 = new_entries @ ;
-assert ( ne1 =~= ne0 . update ( idx as int , e ) ) ;
+assert ( ne1 =~= ne0 . update ( idx as int , g_e ) ) ;
 assert ( occ64 ( ne1 ) =~= occ64 ( ne0 ) . insert ( idx as int ) ) ;
 assert ( ! occ64 ( ne0 ) . contains ( idx as int ) ) ;
 assert forall | c : u64 | vals ( ne1 ) . contains ( c ) <==> ( exists | t : int | 0 <= t < ( vx_i1 + 1 ) && lz [ t ] == c ) by {
-if c == e {
-assert ( ne1 [ idx as int ] == e ) ;
-assert ( holds ( ne1 , e ) ) ;
+if c == g_e {
+assert ( ne1 [ idx as int ] == g_e ) ;
+assert ( holds ( ne1 , g_e ) ) ;
 assert ( lz [ ( vx_i1 + 1 ) as int - 1 ] == c ) ;
 }
 else {
